@@ -418,7 +418,7 @@ func gen(a Args, out *Out) {
 			p, _ := Catch(func() { err = enc.ReadPacket(r, nil, packet.Make()) })
 			out.GoChecked++
 			if p || ErrKind(err) != 3 || r.MaxCap > codec.V2HeaderSize || r.Pos != codec.V2HeaderSize {
-				out.Violation("C02/v2-long-length", "V2 length field above the maximum not refused before allocating", List(Int(12), Int(2), Bytes(template), Bytes(tail), Int(int64(l)), Int(int64(l+1))))
+				out.Violation("C02/v2-long-length", "V2 length field above the maximum not refused before allocating", List(List(Int(12), Int(2), Bytes(template), Bytes(tail), Int(int64(l)), Int(int64(l+1))), ListOf(nil)))
 				break
 			}
 		}
